@@ -61,10 +61,18 @@ GenCfg cfg_of(const Op & op)
   return c;
 }
 
+const double SQUEEZE[8][2] = {{0.0, 0.4}, {0.4, 1.0}, {0.3, 1.0}, {0.0, 0.6}, {0.45, 0.55}, {0.9, 1.0}, {0.0, 0.1}, {0.6, 1.0}};
+
+/// shoot op: a[5..10] = three (draw index, tail) steers; a[11], a[12] = squeeze (number of leading draws, interval index)
 void set_steers(SimRandom & r, const Op & op, size_t first)
 {
-  for (size_t i = first; i + 1 < op.a.size(); i += 2) {
+  for (size_t i = first; i + 1 < op.a.size() && i < first + 6; i += 2) {
     if (op.a[i] >= 0) r.steers.push_back({op.a[i], (int)op.a[i + 1]});
+  }
+  if (op.arg(first + 6, 0) > 0) {
+    r.squeeze_n = op.arg(first + 6);
+    const double * q = SQUEEZE[(size_t)(op.arg(first + 7, 0) % 8)];
+    r.squeeze_lo = q[0]; r.squeeze_hi = q[1];
   }
 }
 
@@ -74,8 +82,9 @@ u64 init_key(i64 stream) { return hmix(hstr("init-stream"), (u64)stream); }
 std::string steer_key(const Op & op, size_t first)
 {
   std::string s;
-  for (size_t i = first; i + 1 < op.a.size(); i += 2)
+  for (size_t i = first; i + 1 < op.a.size() && i < first + 6; i += 2)
     if (op.a[i] >= 0) s += ":" + std::to_string(op.a[i]) + (op.a[i + 1] ? "h" : "l");
+  if (op.arg(first + 6, 0) > 0) s += ":sq" + std::to_string(op.arg(first + 6)) + "/" + std::to_string(op.arg(first + 7, 0) % 8);
   return s;
 }
 
@@ -300,13 +309,17 @@ Outcome run_gen(const Plan & plan, const RunCtx & ctx)
       if (afired) out.ctr["fault_alloc_fail_fired"]++;
       bool faulted = r.cancelled || afired;
       if (r.cancelled) out.ctr["fault_cancel_in_shot_fired"]++;
+      // a squeezed stream is a legal sequence but not an independent-uniform one: the work bound is stated for
+      // independent deviates, so running out of budget under a squeeze decides nothing (the event predicate does)
+      if (r.over_budget && r.squeeze_n > 0) { out.ctr["squeezed_stream_budget_inconclusive"]++; faulted = true; r.over_budget = false; }
       if (r.over_budget && I.gen->get_to_all_events() > 50.0) { out.ctr["window_too_narrow_skipped"]++; faulted = true; r.over_budget = false; }
       out.ctr["fault_steer_fired"] += (i64)r.steered_fired;
       n_shots++;
       out.ctr["deviates_drawn"] += (i64)r.op_draws();
       if ((i64)r.op_draws() > out.mx["max_draws_per_shot"]) out.mx["max_draws_per_shot"] = (i64)r.op_draws();
       tr.adds("shoot"); tr.add(ok); tr.add(r.op_draws());
-      std::string fk = r.cancelled ? "cancel" : (afired ? "allocfail" : (r.steered_fired ? "steer" : "none"));
+      std::string fk = r.cancelled ? "cancel" : (afired ? "allocfail" : (r.squeeze_n > 0 ? "squeeze" : (r.steered_fired ? "steer" : "none")));
+      if (r.squeeze_n > 0) out.ctr["fault_squeezed_stream_shots"]++;
       if (!ok) {
         I.last = faulted ? "shot-faulted" : "shot-threw";
         slot_state[s] = "after-failed-shot";
@@ -478,7 +491,7 @@ Op op_cfg(int g, const GenCfg & c)
 
 Op op_shoot(int g, i64 stream, int slot)
 {
-  Op o; o.k = "shoot"; o.a = {g, stream, slot, -1, -1, -1, 0, -1, 0, -1, 0};
+  Op o; o.k = "shoot"; o.a = {g, stream, slot, -1, -1, -1, 0, -1, 0, -1, 0, 0, 0};
   return o;
 }
 
@@ -628,13 +641,15 @@ Plan gen_sweep(u64 seed, u64 idx, const RunCtx & ctx)
     return p;
   }
   int nshots = (int)r.range(10, ctx.tier == "thorough" ? 80 : 40);
-  int mode = (int)r.below(4); // 0: uniform only, 1: sparse steering, 2: one swept index, 3: mixed
+  int mode = (int)r.below(5); // 0: uniform only, 1: sparse steering, 2: one swept index, 3: mixed, 4: squeezed leading draws
+  i64 sq_n = r.pick(std::vector<i64>{100, 400, 1000}), sq_iv = (i64)r.below(8);
   for (int k = 0; k < nshots; k++) {
     Op s = op_shoot(0, (i64)r.below(1ULL << 40), (int)r.below(2));
     if (mode == 1 || (mode == 3 && r.chance(0.5))) {
       int ns = (int)r.range(1, 3);
       for (int j = 0; j < ns; j++) { s.a[(size_t)(5 + 2 * j)] = draw_index(r); s.a[(size_t)(6 + 2 * j)] = (i64)r.below(2); }
     } else if (mode == 2) { s.a[5] = k; s.a[6] = (i64)r.below(2); }
+    else if (mode == 4) { s.a[11] = sq_n; s.a[12] = r.chance(0.7) ? sq_iv : (i64)r.below(8); }
     p.ops.push_back(s);
     if (r.chance(0.1)) { Op o; o.k = "fresh"; o.a = {(i64)r.below(2)}; p.ops.push_back(o); }
   }
@@ -646,6 +661,7 @@ std::vector<Op> simplify_gen(const Op & op)
   std::vector<Op> v;
   if (op.k == "shoot") {
     for (size_t i : {3u, 4u, 5u, 7u, 9u}) if (i < op.a.size() && op.a[i] >= 0) { Op c = op; c.a[i] = -1; v.push_back(c); }
+    if (op.arg(11) > 0) { Op c = op; c.a[11] = 0; v.push_back(c); Op c2 = op; c2.a[11] = op.arg(11) / 2; v.push_back(c2); }
     for (size_t i : {5u, 7u, 9u}) if (i < op.a.size() && op.a[i] > 0) { Op c = op; c.a[i] = op.a[i] / 2; v.push_back(c); }
     if (op.arg(2) != 0) { Op c = op; c.a[2] = 0; v.push_back(c); }
     if (op.arg(1) > 5) { Op c = op; c.a[1] = op.arg(1) % 6; v.push_back(c); }
